@@ -52,7 +52,54 @@ def corpus():
         sd = [rng.randint(-64, 64) / 8.0 for _ in range(k)]
         for red, centre in (("median", False), ("sum", True)):
             cs.append(mk([se, sn], [k], [sd], None, [0, 8, 0, 8], shape, None, "spacing", red, centre, True, "corpus-sparse-on-fine-grid"))
+    # a LARGE survey (more points than any chunk size a table library or a refactor might introduce): checked inside the worker against
+    # an independent vectorised reduction; only the summary travels back
+    cs.append(mk_large(620_000, 5, (6, 9), "median", False))
+    cs.append(mk_large(540_000, 6, (8, 5), "mean", True))
     return cs
+
+
+def mk_large(n, seed, shape, red, centre):
+    return {"fn": "large", "kind": "corpus-large-survey", "args": [n, seed, list(shape), red, centre], "op": "power_comb 0",
+            "key": f"large-{n}-{seed}-{shape}-{red}-{centre}"}
+
+
+def _large(a):
+    n, seed, shape, red, centre = a
+    rs = np.random.RandomState(seed)
+    # an uneven survey: density and values drift along the acquisition order, so any slice of the table differs from the whole
+    t = np.linspace(0.0, 1.0, n)
+    e = (rs.uniform(0, 1, n) ** 1.5) * 40.0 + 5.0 * t
+    no = rs.uniform(0, 1, n) * 30.0 - 10.0 + 3.0 * np.sin(7 * t)
+    d = 100.0 * t + rs.normal(size=n) + 0.25 * e
+    region = (0.0, 45.0, -13.0, 23.0)
+    br = vd.BlockReduce(REDS[red], shape=tuple(shape), region=region, center_coordinates=centre)
+    (be, bn), bd = br.filter((e, no), d)
+    # independent labels: block (i, j) by floor division, clamped; row-major from the south-west
+    dy, dx = (region[3] - region[2]) / shape[0], (region[1] - region[0]) / shape[1]
+    j = np.clip(np.floor((e - region[0]) / dx).astype(int), 0, shape[1] - 1)
+    i = np.clip(np.floor((no - region[2]) / dy).astype(int), 0, shape[0] - 1)
+    lab = i * shape[1] + j
+    keys = np.unique(lab)
+
+    def ref(v):
+        if red == "mean":
+            return np.bincount(lab, weights=v, minlength=lab.max() + 1)[keys] / np.bincount(lab, minlength=lab.max() + 1)[keys]
+        order = np.lexsort((v, lab))
+        ls, vs = lab[order], v[order]
+        starts = np.searchsorted(ls, keys, side="left")
+        ends = np.searchsorted(ls, keys, side="right")
+        lo, hi = starts + (ends - starts - 1) // 2, starts + (ends - starts) // 2
+        return 0.5 * (vs[lo] + vs[hi])
+    out = {"nblocks": int(len(bd)), "expected_blocks": int(len(keys)), "n": n}
+    if len(bd) == len(keys):
+        out["data_err"] = float(np.max(np.abs(np.asarray(bd) - ref(d))))
+        if centre:
+            cy, cx = np.divmod(keys, shape[1])
+            out["coord_err"] = float(max(np.max(np.abs(np.asarray(be) - (region[0] + (cx + 0.5) * dx))), np.max(np.abs(np.asarray(bn) - (region[2] + (cy + 0.5) * dy)))))
+        else:
+            out["coord_err"] = float(max(np.max(np.abs(np.asarray(be) - ref(e))), np.max(np.abs(np.asarray(bn) - ref(no)))))
+    return out
 
 
 def generate(rng, tier):
@@ -86,6 +133,9 @@ def generate(rng, tier):
 
 
 def impl(case):
+    if case["fn"] == "large":
+        r = C.call(_large, case["args"])
+        return r if C.is_err(r) else ["large", r]
     coords, shape2d, data, weights, region, shape, spacing, adjust, red, centre, drop = case["args"]
     key = case["op"][-60:]
     cs = tuple(C.mkarr(c, shape2d, f"{key}c{i}") for i, c in enumerate(coords))
@@ -116,6 +166,8 @@ def impl(case):
 
 
 def compare(case, io, mo):
+    if case["fn"] == "large":
+        return "diff:implementation failed: " + io[1] if C.is_err(io) else "ok"
     r = C.std_compare(io, mo, tol=1e-11)
     if r != "ok" and not C.is_err(io):
         a = case["args"]
@@ -143,6 +195,16 @@ def _reduce(red, vals, ws=None):
 
 
 def oracle(case, io):
+    if case["fn"] == "large":
+        if C.is_err(io):
+            return "BlockReduce failed on a large survey: " + io[1]
+        r = io[1]
+        if r["nblocks"] != r["expected_blocks"]:
+            return f"{r['n']} points: {r['nblocks']} output entries for {r['expected_blocks']} non-empty blocks"
+        if not (r["data_err"] <= 1e-8) or not (r["coord_err"] <= 1e-8):
+            return (f"{r['n']} points, reduction {case['args'][3]}: block values differ from the reduction over each block's own members by {r['data_err']}"
+                    f" (coordinates by {r['coord_err']})")
+        return None
     coords, shape2d, data, weights, region, shape, spacing, adjust, red, centre, drop = case["args"]
     es, ns = coords[0], coords[1]
     if C.is_err(io) and io[1] == "ZeroDivisionError" and weights is not None:
@@ -185,6 +247,8 @@ def oracle(case, io):
 def nontrivial(case, io):
     if C.is_err(io):
         return False
+    if case["fn"] == "large":
+        return True
     return len(io[1][0]) >= 2 or len(case["args"][0][0]) > len(io[1][0])
 
 
